@@ -575,4 +575,1212 @@ impl Model {
     }
 }
 
-//@@PART3@@
+// ------------------------------------------------------------------------------------------------
+// child: executing one call
+// ------------------------------------------------------------------------------------------------
+
+#[derive(Clone, Copy, Debug)]
+enum Ret {
+    Ptr(usize),
+    Int(i64),
+    Bool(bool),
+    Void,
+    Skipped,
+}
+
+struct Out {
+    ret: Ret,
+    /// out-pointer value (byte arrays)
+    out: usize,
+    /// out count (string arrays)
+    count: usize,
+}
+
+#[derive(Deserialize)]
+struct ChildInput {
+    case: Case,
+    skip: Vec<String>,
+    selftest: u8,
+}
+
+struct Child {
+    m: Model,
+    /// element string -> owning array (registry entries the model must not mistake for free addresses)
+    elems: BTreeMap<usize, usize>,
+    pools: Pools,
+    mems: Vec<*mut Mem>,
+    foreign: Vec<u8>,
+    skip: BTreeSet<String>,
+    probe: bool,
+    selftest: u8,
+    n: u64,
+    thumb_uri: Option<String>,
+    last_manifest: Vec<u8>,
+    garbage: Vec<u8>,
+    counts: BTreeMap<String, u64>,
+    constructed: bool,
+    nontrivial: bool,
+    excluded: u64,
+    stopped: bool,
+    trouble: Option<String>,
+    /// element count passed to c2pa_free_string_array for the current call
+    arg_count: usize,
+    new_mem: Option<(usize, u8)>,
+    phase: &'static str,
+}
+
+impl Child {
+    fn new(inp: &ChildInput) -> Child {
+        Child {
+            m: Model::default(),
+            elems: BTreeMap::new(),
+            pools: Pools::new(),
+            mems: vec![],
+            foreign: vec![0xA5u8; 8192],
+            skip: inp.skip.iter().cloned().collect(),
+            probe: inp.case.probe,
+            selftest: inp.selftest,
+            n: 0,
+            thumb_uri: None,
+            last_manifest: vec![],
+            garbage: (0..64u8).map(|i| i.wrapping_mul(37) ^ 0x5c).collect(),
+            counts: BTreeMap::new(),
+            constructed: false,
+            nontrivial: false,
+            excluded: 0,
+            stopped: false,
+            trouble: None,
+            arg_count: 0,
+            new_mem: None,
+            phase: "seq",
+        }
+    }
+
+    fn count(&mut self, k: &str) {
+        *self.counts.entry(k.to_string()).or_insert(0) += 1;
+    }
+
+    fn violation(&mut self, sig: String, what: String) -> Result<Ret, ()> {
+        emit(json!({"e": "viol", "sig": sig, "what": what}));
+        self.stopped = true;
+        Err(())
+    }
+
+    fn harness_trouble(&mut self, what: String) -> Result<usize, ()> {
+        emit(json!({"e": "trouble", "what": what}));
+        self.trouble = Some(what);
+        self.stopped = true;
+        Err(())
+    }
+
+    fn carg(&self, pool: &str, v: u8) -> CArg {
+        let p = self.pools.m.get(pool).unwrap_or_else(|| panic!("no pool {pool}"));
+        let s = p[v as usize % p.len()].clone();
+        CArg(s.map(|s| {
+            let s = if s == "@thumb" {
+                self.thumb_uri.clone().unwrap_or_else(|| "self#jumbf=c2pa.assertions/c2pa.thumbnail.claim.jpeg".to_string())
+            } else {
+                s
+            };
+            CString::new(s).expect("pool string without NUL")
+        }))
+    }
+
+    fn foreign_ptr(&self, i: usize) -> usize {
+        let base = (self.foreign.as_ptr() as usize + 15) & !15;
+        base + 16 * (1 + i % 200)
+    }
+
+    fn is_free_now(&self, addr: usize) -> bool {
+        self.m.is_free_now(addr) && !self.elems.contains_key(&addr)
+    }
+
+    // ---- on-demand construction through the C API (canonical valid calls, judged like any other) -------------
+
+    fn simple(&mut self, name: &str, v: [u8; 3]) -> Result<usize, ()> {
+        self.with_args(name, &[], v)
+    }
+
+    fn with_args(&mut self, name: &str, args: &[usize], v: [u8; 3]) -> Result<usize, ()> {
+        let mut a = [0usize; 4];
+        a[..args.len()].copy_from_slice(args);
+        let fi = spec_index(name);
+        match self.perform(fi, a, [Cl::Live; 4], None, v, true)? {
+            Ret::Ptr(p) if p != 0 => Ok(p),
+            Ret::Int(i) if i >= 0 => Ok(0),
+            Ret::Void | Ret::Bool(_) => Ok(0),
+            r => self.harness_trouble(format!("canonical call {name} failed: {r:?}")),
+        }
+    }
+
+    fn ensure(&mut self, k: K, role: u8) -> Result<usize, ()> {
+        match k {
+            K::Settings => self.simple("c2pa_settings_new", [0; 3]),
+            K::CtxB => self.simple("c2pa_context_builder_new", [0; 3]),
+            K::Ctx => {
+                // a context that carries the fixture signer: settings -> context builder -> build
+                let s = self.simple("c2pa_settings_new", [0; 3])?;
+                self.with_args("c2pa_settings_update_from_string", &[s], [1, 0, 0])?;
+                let cb = self.simple("c2pa_context_builder_new", [0; 3])?;
+                self.with_args("c2pa_context_builder_set_settings", &[cb, s], [0; 3])?;
+                let ctx = self.with_args("c2pa_context_builder_build", &[cb], [0; 3])?;
+                self.with_args("c2pa_free", &[s], [0; 3])?;
+                Ok(ctx)
+            }
+            K::Reader => {
+                let s = self.pick_live(K::Stream, R_SIGNED, 0, &[])?;
+                self.with_args("c2pa_reader_from_stream", &[s], [0; 3])
+            }
+            K::Builder => {
+                if role == R_CTXB {
+                    let ctx = self.ensure(K::Ctx, R_ANY)?;
+                    let b = self.with_args("c2pa_builder_from_context", &[ctx], [0; 3])?;
+                    if let Some(h) = self.m.live.get_mut(&b) {
+                        h.role = R_CTXB;
+                    }
+                    Ok(b)
+                } else {
+                    let b = self.simple("c2pa_builder_from_json", [0; 3])?;
+                    self.with_args("c2pa_builder_set_intent", &[b], [0; 3])?;
+                    Ok(b)
+                }
+            }
+            K::Signer => self.simple("c2pa_signer_from_info", [0; 3]),
+            K::Resolver => self.simple("c2pa_http_resolver_create", [0; 3]),
+            K::Stream => {
+                let v0 = match role {
+                    R_SIGNED => 1,
+                    R_DEST => 2,
+                    _ => 0,
+                };
+                self.simple("c2pa_create_stream", [v0, 0, 0])
+            }
+            K::Str | K::Any => self.simple("c2pa_version", [0; 3]),
+            K::Bytes => self.simple("c2pa_ed25519_sign", [0; 3]),
+            K::Arr => self.simple("c2pa_reader_supported_mime_types", [0; 3]),
+        }
+    }
+
+    // ---- argument resolution ------------------------------------------------------------------------------
+
+    fn pick_live(&mut self, k: K, role: u8, i: usize, used: &[usize]) -> Result<usize, ()> {
+        let all = self.m.ordered();
+        let cands: Vec<&Handle> = all
+            .iter()
+            .filter(|h| {
+                !used.contains(&h.addr)
+                    && match k {
+                        K::Any => h.kind != K::Arr,
+                        _ => h.kind == k,
+                    }
+            })
+            .collect();
+        let by_role = role != R_ANY && i < 192;
+        let pool: Vec<&Handle> = if by_role { cands.iter().copied().filter(|h| h.role == role).collect() } else { cands };
+        if pool.is_empty() {
+            return self.ensure(k, role);
+        }
+        Ok(pool[i % pool.len()].addr)
+    }
+
+    fn pick_wrong(&mut self, k: K, i: usize, used: &[usize]) -> Result<usize, ()> {
+        let all = self.m.ordered();
+        let cands: Vec<usize> = all
+            .iter()
+            .filter(|h| {
+                !used.contains(&h.addr)
+                    && match k {
+                        K::Any => h.kind == K::Arr,
+                        K::Arr => h.kind != K::Arr,
+                        _ => h.kind != k,
+                    }
+            })
+            .map(|h| h.addr)
+            .collect();
+        if cands.is_empty() {
+            let alt = match k {
+                K::Any => K::Arr,
+                K::Arr => K::Str,
+                K::Settings => K::CtxB,
+                _ => K::Settings,
+            };
+            return self.ensure(alt, R_ANY);
+        }
+        Ok(cands[i % cands.len()])
+    }
+
+    /// An address that was a live handle once and is not in the registry now (most recently freed first).
+    fn pick_freed(&mut self, k: K, i: usize) -> Result<(usize, usize), ()> {
+        let want_arr = k == K::Arr;
+        let mut c: Vec<(usize, usize)> = vec![];
+        for f in self.m.freed.iter().rev() {
+            if f.1 == want_arr && self.is_free_now(f.0) && !c.iter().any(|x| x.0 == f.0) {
+                c.push((f.0, f.2));
+            }
+        }
+        if c.is_empty() {
+            if want_arr {
+                let a = self.ensure(K::Arr, R_ANY)?;
+                let n = self.m.live.get(&a).map(|h| h.len).unwrap_or(0);
+                self.with_args("c2pa_free_string_array", &[a], [0; 3])?;
+                return Ok((a, n));
+            }
+            let a = self.ensure(K::Str, R_ANY)?;
+            self.with_args("c2pa_free", &[a], [0; 3])?;
+            return Ok((a, 0));
+        }
+        Ok(c[i % c.len()])
+    }
+
+    /// Resolve the selectors of one generated call and perform it. At most one handle argument is invalid
+    /// (the first non-live selector wins) so that a failure is attributed to exactly one (parameter, class).
+    fn call(&mut self, c: &Call) -> Result<Ret, ()> {
+        let fi = c.f as usize % SPECS.len();
+        let spec = &SPECS[fi];
+        let mut a = [0usize; 4];
+        let mut cls = [Cl::Live; 4];
+        let mut bad: Option<usize> = None;
+        let mut used: Vec<usize> = vec![];
+        self.arg_count = 1;
+        for (pi, &(k, _name, role)) in spec.hs.iter().enumerate() {
+            let sel = c.h[pi];
+            let want = if bad.is_some() { Cl::Live } else { Cl::from_u8(sel.c) };
+            let i = sel.i as usize;
+            let addr = match want {
+                Cl::Live => self.pick_live(k, role, i, &used)?,
+                Cl::Wrong => self.pick_wrong(k, i, &used)?,
+                Cl::Freed => {
+                    let (a, n) = self.pick_freed(k, i)?;
+                    if k == K::Arr {
+                        self.arg_count = n.max(1);
+                    }
+                    a
+                }
+                Cl::Null => 0,
+                Cl::Foreign => self.foreign_ptr(i),
+            };
+            a[pi] = addr;
+            cls[pi] = want;
+            used.push(addr);
+            if want != Cl::Live && !(want == Cl::Null && spec.null_ok & (1 << pi) != 0) {
+                bad = Some(pi);
+            }
+        }
+        self.perform(fi, a, cls, bad, c.v, false)
+    }
+
+    fn read_error(&mut self) -> Result<String, ()> {
+        let p = unsafe { ffi::c2pa_error() };
+        if p.is_null() {
+            self.violation("C31:error-message-null".into(), "c2pa_error() returned NULL".into())?;
+        }
+        let s = unsafe { CStr::from_ptr(p) }.to_string_lossy().into_owned();
+        let r = unsafe { ffi::c2pa_free(p as *const c_void) };
+        if r != 0 {
+            self.violation(
+                "C31:error-string-free-failed".into(),
+                format!("c2pa_free of the string returned by c2pa_error() gave {r}"),
+            )?;
+        }
+        Ok(s)
+    }
+
+    fn perform(&mut self, fi: usize, a: [usize; 4], cls: [Cl; 4], bad: Option<usize>, v: [u8; 3], implicit: bool) -> Result<Ret, ()> {
+        let spec = &SPECS[fi];
+        let np = spec.hs.len();
+        let bad_key = bad.map(|pi| format!("{}:{}:{}", spec.name, spec.hs[pi].1, cls[pi].name()));
+        if let Some(key) = &bad_key {
+            if !self.probe && self.skip.contains(key) {
+                self.excluded += 1;
+                emit(json!({"e": "skip", "key": key}));
+                return Ok(Ret::Skipped);
+            }
+        }
+        // the caller's own streams: rewind before handing them to the library
+        for pi in 0..np {
+            if cls[pi] == Cl::Live {
+                if let Some(mi) = self.m.live.get(&a[pi]).and_then(|h| h.mem) {
+                    unsafe { (*self.mems[mi]).pos = 0 };
+                }
+            }
+        }
+        if spec.eff == E::FreeArr && cls[0] == Cl::Live {
+            self.arg_count = self.m.live.get(&a[0]).map(|h| h.len).unwrap_or(0);
+        }
+        self.n += 1;
+        let n = self.n;
+        let tag = format!("vh-sentinel-{n}");
+        let sentinel = CString::new(format!("Other: {tag}")).unwrap();
+        let r = unsafe { ffi::c2pa_error_set_last(sentinel.as_ptr()) };
+        if r != 0 {
+            self.violation("C31:error-set-last-failed".into(), format!("c2pa_error_set_last returned {r}"))?;
+        }
+        let cls_names: Vec<&str> = (0..np).map(|pi| cls[pi].name()).collect();
+        emit(json!({"e": "pre", "n": n, "f": spec.name, "cls": cls_names, "bad": bad_key, "implicit": implicit, "phase": self.phase}));
+        IN_CALL.store(true, Ordering::SeqCst);
+        let out = unsafe { self.exec(spec.name, &a, &v) };
+        IN_CALL.store(false, Ordering::SeqCst);
+        let msg = self.read_error()?;
+        let changed = !msg.contains(&tag);
+        let indicated = match out.ret {
+            Ret::Ptr(p) => p == 0,
+            Ret::Int(i) => i < 0,
+            Ret::Bool(b) => !b,
+            Ret::Void | Ret::Skipped => true,
+        };
+        let short: String = msg.chars().take(90).collect();
+        emit(json!({"e": "post", "n": n, "ret": format!("{:?}", out.ret), "changed": changed, "msg": if changed { short.clone() } else { String::new() }}));
+        if !implicit {
+            self.count(&format!("call:{}", spec.name));
+        } else {
+            self.count("implicit_calls");
+        }
+
+        // ---- judge ------------------------------------------------------------------------------------------
+        if let Some(pi) = bad {
+            let key = bad_key.clone().unwrap();
+            if implicit {
+                self.count("final_second_free_checked");
+            } else {
+                self.count(&format!("misuse:{}", cls[pi].name()));
+                self.count(&format!("misuse_param_kind:{}", spec.hs[pi].0.name()));
+            }
+            if self.constructed && !implicit {
+                self.nontrivial = true;
+            }
+            if spec.eff == E::FreeArr {
+                // void (ptr,count) free function outside the registry: it cannot report anything. A crash is
+                // observed by the parent; if it returns, the heap may already be damaged, so the sequence ends here.
+                self.count("string_array_misuse_survived");
+                emit(json!({"e": "terminal", "why": "c2pa_free_string_array with an invalid pointer returned"}));
+                self.stopped = true;
+                return Err(());
+            }
+            if !indicated {
+                self.violation(
+                    format!("C31:no-error-indicator:{key}"),
+                    format!(
+                        "{}({}) with a {} pointer for `{}` returned {:?} (no error indicator); last error: {short:?}",
+                        spec.name,
+                        cls_names.join(","),
+                        cls[pi].name(),
+                        spec.hs[pi].1,
+                        out.ret
+                    ),
+                )?;
+            }
+            if !changed {
+                self.violation(
+                    format!("C31:no-error-message:{key}"),
+                    format!(
+                        "{}({}) with a {} pointer for `{}` returned {:?} but c2pa_error() still holds the message set before the call",
+                        spec.name,
+                        cls_names.join(","),
+                        cls[pi].name(),
+                        spec.hs[pi].1,
+                        out.ret
+                    ),
+                )?;
+            }
+        } else {
+            let ok = !indicated || matches!(out.ret, Ret::Void | Ret::Bool(_));
+            self.count(if ok && !changed { "valid_ok" } else { "valid_err_or_msg" });
+            if changed && (msg.contains("UntrackedPointer") || msg.contains("WrongPointerType")) {
+                self.violation(
+                    format!("C31:live-handle-rejected:{}", spec.name),
+                    format!("{} with only live, right-typed handles ({:x?}) failed with {short:?}", spec.name, &a[..np]),
+                )?;
+            }
+        }
+
+        // ---- effects on the model ---------------------------------------------------------------------------
+        let success = match out.ret {
+            Ret::Ptr(p) => p != 0,
+            Ret::Int(i) => i >= 0,
+            Ret::Bool(_) => true,
+            Ret::Void | Ret::Skipped => !changed,
+        };
+        match spec.eff {
+            E::None => {}
+            E::New(k) => {
+                if let Ret::Ptr(p) = out.ret {
+                    if p != 0 {
+                        let (mem, role) = match self.new_mem.take() {
+                            Some((mi, role)) if k == K::Stream => (Some(mi), role),
+                            _ => (None, R_ANY),
+                        };
+                        let role = if spec.name == "c2pa_builder_from_context" { R_CTXB } else { role };
+                        if self.m.add(p, k, role, mem, 0) {
+                            self.count("address_reissued");
+                        }
+                        self.constructed = true;
+                        if spec.name == "c2pa_reader_json" {
+                            self.learn_thumb(p);
+                        }
+                    }
+                }
+                self.new_mem = None;
+            }
+            E::OutBytes => {
+                if let Ret::Int(len) = out.ret {
+                    if len >= 0 && out.out != 0 {
+                        if self.m.add(out.out, K::Bytes, R_ANY, None, len as usize) {
+                            self.count("address_reissued");
+                        }
+                        self.constructed = true;
+                        if spec.name.contains("sign") && (len as usize) < (8 << 20) {
+                            self.last_manifest = unsafe { std::slice::from_raw_parts(out.out as *const u8, len as usize) }.to_vec();
+                        }
+                        if spec.name == "c2pa_builder_sign" || spec.name == "c2pa_builder_sign_context" {
+                            self.count("sign_ok");
+                            if let Some(h) = self.m.live.get_mut(&a[2]) {
+                                h.role = R_SIGNED;
+                            }
+                        }
+                    }
+                }
+            }
+            E::NewArr => {
+                if let Ret::Ptr(p) = out.ret {
+                    if p != 0 {
+                        self.m.add(p, K::Arr, R_ANY, None, out.count);
+                        for j in 0..out.count {
+                            let e = unsafe { *(p as *const usize).add(j) };
+                            self.elems.insert(e, p);
+                        }
+                        self.constructed = true;
+                    }
+                }
+            }
+            E::Consume(params, k) => {
+                let forget = self.selftest == 1 && spec.name == "c2pa_context_builder_build";
+                let mut role = R_ANY;
+                for &pi in params {
+                    if cls[pi] == Cl::Live {
+                        role = self.m.live.get(&a[pi]).map(|h| h.role).unwrap_or(R_ANY);
+                        if success && bad.is_none() {
+                            if !forget {
+                                self.m.release(a[pi]);
+                            }
+                        } else {
+                            self.count("consumed_state_unknown");
+                            self.m.to_unknown(a[pi]);
+                        }
+                    }
+                }
+                if let Ret::Ptr(p) = out.ret {
+                    if p != 0 {
+                        if self.m.add(p, k, role, None, 0) {
+                            self.count("address_reissued");
+                        }
+                        self.constructed = true;
+                    }
+                }
+            }
+            E::ConsumeP1 => {
+                if cls[1] == Cl::Live {
+                    if success && bad.is_none() {
+                        self.m.release(a[1]);
+                    } else {
+                        self.count("consumed_state_unknown");
+                        self.m.to_unknown(a[1]);
+                    }
+                }
+            }
+            E::Free => {
+                if cls[0] == Cl::Live {
+                    let kind = self.m.live.get(&a[0]).map(|h| h.kind);
+                    if !success {
+                        self.violation(
+                            format!("C31:free-live-failed:{}", spec.name),
+                            format!("{} on a live {:?} handle {:#x} reported {:?} / {short:?}", spec.name, kind, a[0], out.ret),
+                        )?;
+                    }
+                    self.m.release(a[0]);
+                    self.count("freed_live");
+                }
+            }
+            E::FreeArr => {
+                if cls[0] == Cl::Live {
+                    let es: Vec<usize> = self.elems.iter().filter(|(_, &arr)| arr == a[0]).map(|(&e, _)| e).collect();
+                    for e in es {
+                        self.elems.remove(&e);
+                        self.m.freed.push((e, false, 0));
+                    }
+                    self.m.release(a[0]);
+                    self.count("freed_live");
+                }
+            }
+        }
+        Ok(out.ret)
+    }
+
+    fn learn_thumb(&mut self, json_ptr: usize) {
+        let s = unsafe { CStr::from_ptr(json_ptr as *const c_char) }.to_string_lossy().into_owned();
+        if let Ok(v) = serde_json::from_str::<Value>(&s) {
+            if let Some(ms) = v["manifests"].as_object() {
+                for (_, m) in ms {
+                    if let Some(id) = m["thumbnail"]["identifier"].as_str() {
+                        self.thumb_uri = Some(id.to_string());
+                        return;
+                    }
+                }
+            }
+        }
+    }
+
+    /// Free everything the model holds: every live handle exactly once (and a second free must fail).
+    fn final_phase(&mut self) -> Result<(), ()> {
+        self.phase = "final";
+        let free_i = spec_index("c2pa_free");
+        let arr_i = spec_index("c2pa_free_string_array");
+        for h in self.m.ordered() {
+            if !self.m.live.contains_key(&h.addr) {
+                continue;
+            }
+            let mut a = [0usize; 4];
+            a[0] = h.addr;
+            if h.kind == K::Arr {
+                self.perform(arr_i, a, [Cl::Live; 4], None, [0; 3], true)?;
+                continue;
+            }
+            match self.perform(free_i, a, [Cl::Live; 4], None, [0; 3], true)? {
+                Ret::Int(0) => {}
+                r => {
+                    self.violation(
+                        format!("C31:final-free-failed:{}", h.kind.name()),
+                        format!("c2pa_free of model-live {} handle {:#x} returned {r:?}", h.kind.name(), h.addr),
+                    )?;
+                }
+            }
+            self.count("final_freed");
+            // second free of the same address (nothing was allocated through the API in between)
+            let mut cls = [Cl::Live; 4];
+            cls[0] = Cl::Freed;
+            self.perform(free_i, a, cls, Some(0), [0; 3], true)?;
+        }
+        // handles whose ownership after a failed consuming call is not documented: either result, no crash
+        let unk: Vec<usize> = self.m.unknown.iter().copied().collect();
+        for u in unk {
+            self.n += 1;
+            emit(json!({"e": "pre", "n": self.n, "f": "c2pa_free", "cls": ["unknown"], "bad": Value::Null, "implicit": true, "phase": "final-unknown"}));
+            IN_CALL.store(true, Ordering::SeqCst);
+            let r = unsafe { ffi::c2pa_free(u as *const c_void) };
+            IN_CALL.store(false, Ordering::SeqCst);
+            emit(json!({"e": "post", "n": self.n, "ret": r, "changed": false, "msg": ""}));
+            self.count(if r == 0 { "unknown_was_live" } else { "unknown_was_consumed" });
+        }
+        Ok(())
+    }
+
+    /// Caller-owned byte buffer argument: 0 last signed manifest (or junk), 1 junk, 2 NULL/0, 3 pointer with length 0.
+    fn data_arg(&self, v: u8) -> (*const u8, usize) {
+        match v % 4 {
+            0 if !self.last_manifest.is_empty() => (self.last_manifest.as_ptr(), self.last_manifest.len()),
+            0 | 1 => (self.garbage.as_ptr(), self.garbage.len()),
+            2 => (std::ptr::null(), 0),
+            _ => (self.garbage.as_ptr(), 0),
+        }
+    }
+
+    /// The actual FFI call. Handle arguments arrive as raw addresses; everything else is a valid caller-owned value.
+    unsafe fn exec(&mut self, name: &str, a: &[usize; 4], v: &[u8; 3]) -> Out {
+        let mut out: *const u8 = std::ptr::null();
+        let mut count: usize = 0;
+        let null_s: *const c_char = std::ptr::null();
+        let ret = match name {
+            "c2pa_version" => Ret::Ptr(ffi::c2pa_version() as usize),
+            "c2pa_settings_new" => Ret::Ptr(ffi::c2pa_settings_new() as usize),
+            "c2pa_context_new" => Ret::Ptr(ffi::c2pa_context_new() as usize),
+            "c2pa_context_builder_new" => Ret::Ptr(ffi::c2pa_context_builder_new() as usize),
+            "c2pa_reader_new" => Ret::Ptr(ffi::c2pa_reader_new() as usize),
+            "c2pa_builder_from_json" => {
+                let s = self.carg("def", v[0]);
+                Ret::Ptr(ffi::c2pa_builder_from_json(s.p()) as usize)
+            }
+            "c2pa_create_stream" => {
+                let (data, role) = match v[0] % 4 {
+                    0 => (self.pools.src_jpeg.clone(), R_SRC),
+                    1 => (self.pools.signed_jpeg.clone(), R_SIGNED),
+                    2 => (vec![], R_DEST),
+                    _ => (self.garbage.repeat(4), R_ANY),
+                };
+                let mem = Box::into_raw(Box::new(Mem { data, pos: 0 }));
+                self.mems.push(mem);
+                self.new_mem = Some((self.mems.len() - 1, role));
+                Ret::Ptr(ffi::c2pa_create_stream(mem as *mut ffi::StreamContext, s_read, s_seek, s_write, s_flush) as usize)
+            }
+            "c2pa_signer_from_info" => {
+                let alg = self.carg("alg", v[0]);
+                let cert = self.carg("certs", v[1]);
+                let key = self.carg("key", v[2]);
+                let info = ffi::C2paSignerInfo { alg: alg.p(), sign_cert: cert.p(), private_key: key.p(), ta_url: null_s };
+                Ret::Ptr(ffi::c2pa_signer_from_info(&info) as usize)
+            }
+            "c2pa_free" => {
+                let r = ffi::c2pa_free(a[0] as *const c_void);
+                if self.selftest == 2 && r == 0 && a[0] != 0 && self.m.live.get(&a[0]).map(|h| h.kind) == Some(K::Str) {
+                    // self-test: pretend the library released the allocation twice
+                    libc::free(a[0] as *mut c_void);
+                }
+                Ret::Int(r as i64)
+            }
+            "c2pa_error" => Ret::Ptr(ffi::c2pa_error() as usize),
+            "c2pa_error_set_last" => {
+                let s = self.carg("errstr", v[0]);
+                Ret::Int(ffi::c2pa_error_set_last(s.p()) as i64)
+            }
+            "c2pa_load_settings" => {
+                let s = self.carg("settings", v[0]);
+                let f = self.carg("setfmt", v[1]);
+                Ret::Int(ffi::c2pa_load_settings(s.p(), f.p()) as i64)
+            }
+            "c2pa_settings_update_from_string" => {
+                let s = self.carg("settings", v[0]);
+                let f = self.carg("setfmt", v[1]);
+                Ret::Int(ffi::c2pa_settings_update_from_string(a[0] as *mut _, s.p(), f.p()) as i64)
+            }
+            "c2pa_settings_set_value" => {
+                let p = self.carg("setpath", v[0]);
+                let val = self.carg("setvalue", v[1]);
+                Ret::Int(ffi::c2pa_settings_set_value(a[0] as *mut _, p.p(), val.p()) as i64)
+            }
+            "c2pa_context_builder_set_settings" => {
+                Ret::Int(ffi::c2pa_context_builder_set_settings(a[0] as *mut _, a[1] as *mut _) as i64)
+            }
+            "c2pa_context_builder_set_signer" => {
+                Ret::Int(ffi::c2pa_context_builder_set_signer(a[0] as *mut _, a[1] as *mut _) as i64)
+            }
+            "c2pa_context_builder_set_progress_callback" => {
+                Ret::Int(ffi::c2pa_context_builder_set_progress_callback(a[0] as *mut _, std::ptr::null(), progress_cb) as i64)
+            }
+            "c2pa_http_resolver_create" => Ret::Ptr(ffi::c2pa_http_resolver_create(std::ptr::null(), http_cb) as usize),
+            "c2pa_context_builder_set_http_resolver" => {
+                Ret::Int(ffi::c2pa_context_builder_set_http_resolver(a[0] as *mut _, a[1] as *mut _) as i64)
+            }
+            "c2pa_context_builder_build" => Ret::Ptr(ffi::c2pa_context_builder_build(a[0] as *mut _) as usize),
+            "c2pa_context_cancel" => Ret::Int(ffi::c2pa_context_cancel(a[0] as *mut _) as i64),
+            "c2pa_release_string" => {
+                ffi::c2pa_release_string(a[0] as *mut c_char);
+                Ret::Void
+            }
+            "c2pa_string_free" => {
+                ffi::c2pa_string_free(a[0] as *mut c_char);
+                Ret::Void
+            }
+            "c2pa_free_string_array" => {
+                ffi::c2pa_free_string_array(a[0] as *const *const c_char, self.arg_count);
+                Ret::Void
+            }
+            "c2pa_reader_from_context" => Ret::Ptr(ffi::c2pa_reader_from_context(a[0] as *mut _) as usize),
+            "c2pa_reader_from_stream" => {
+                let f = self.carg("fmt", v[0]);
+                Ret::Ptr(ffi::c2pa_reader_from_stream(f.p(), a[0] as *mut _) as usize)
+            }
+            "c2pa_reader_with_stream" => {
+                let f = self.carg("fmt", v[0]);
+                Ret::Ptr(ffi::c2pa_reader_with_stream(a[0] as *mut _, f.p(), a[1] as *mut _) as usize)
+            }
+            "c2pa_reader_with_manifest_data_and_stream" => {
+                let f = self.carg("fmt", v[0]);
+                let (d, l) = self.data_arg(v[1]);
+                Ret::Ptr(ffi::c2pa_reader_with_manifest_data_and_stream(a[0] as *mut _, f.p(), a[1] as *mut _, d, l) as usize)
+            }
+            "c2pa_reader_with_fragment" => {
+                let f = self.carg("fmt", v[0]);
+                Ret::Ptr(ffi::c2pa_reader_with_fragment(a[0] as *mut _, f.p(), a[1] as *mut _, a[2] as *mut _) as usize)
+            }
+            "c2pa_reader_from_file" => {
+                let p = self.carg("file", v[0]);
+                Ret::Ptr(ffi::c2pa_reader_from_file(p.p()) as usize)
+            }
+            "c2pa_reader_from_manifest_data_and_stream" => {
+                let f = self.carg("fmt", v[0]);
+                let (d, l) = self.data_arg(v[1]);
+                Ret::Ptr(ffi::c2pa_reader_from_manifest_data_and_stream(f.p(), a[0] as *mut _, d, l) as usize)
+            }
+            "c2pa_reader_free" => {
+                ffi::c2pa_reader_free(a[0] as *mut _);
+                Ret::Void
+            }
+            "c2pa_reader_json" => Ret::Ptr(ffi::c2pa_reader_json(a[0] as *mut _) as usize),
+            "c2pa_reader_detailed_json" => Ret::Ptr(ffi::c2pa_reader_detailed_json(a[0] as *mut _) as usize),
+            "c2pa_reader_crjson" => Ret::Ptr(ffi::c2pa_reader_crjson(a[0] as *mut _) as usize),
+            "c2pa_reader_remote_url" => Ret::Ptr(ffi::c2pa_reader_remote_url(a[0] as *mut _) as usize),
+            "c2pa_reader_is_embedded" => Ret::Bool(ffi::c2pa_reader_is_embedded(a[0] as *mut _)),
+            "c2pa_reader_resource_to_stream" => {
+                let u = self.carg("uri", v[0]);
+                Ret::Int(ffi::c2pa_reader_resource_to_stream(a[0] as *mut _, u.p(), a[1] as *mut _))
+            }
+            "c2pa_reader_supported_mime_types" => Ret::Ptr(ffi::c2pa_reader_supported_mime_types(&mut count) as usize),
+            "c2pa_builder_from_context" => Ret::Ptr(ffi::c2pa_builder_from_context(a[0] as *mut _) as usize),
+            "c2pa_builder_from_archive" => Ret::Ptr(ffi::c2pa_builder_from_archive(a[0] as *mut _) as usize),
+            "c2pa_builder_supported_mime_types" => Ret::Ptr(ffi::c2pa_builder_supported_mime_types(&mut count) as usize),
+            "c2pa_builder_free" => {
+                ffi::c2pa_builder_free(a[0] as *mut _);
+                Ret::Void
+            }
+            "c2pa_builder_with_definition" => {
+                let s = self.carg("def", v[0]);
+                Ret::Ptr(ffi::c2pa_builder_with_definition(a[0] as *mut _, s.p()) as usize)
+            }
+            "c2pa_builder_with_archive" => Ret::Ptr(ffi::c2pa_builder_with_archive(a[0] as *mut _, a[1] as *mut _) as usize),
+            "c2pa_builder_set_intent" => {
+                let intent = match v[0] % 3 {
+                    0 => ffi::C2paBuilderIntent::Create,
+                    1 => ffi::C2paBuilderIntent::Edit,
+                    _ => ffi::C2paBuilderIntent::Update,
+                };
+                let dst = match v[1] % 3 {
+                    0 => ffi::C2paDigitalSourceType::DigitalCapture,
+                    1 => ffi::C2paDigitalSourceType::Empty,
+                    _ => ffi::C2paDigitalSourceType::TrainedAlgorithmicMedia,
+                };
+                Ret::Int(ffi::c2pa_builder_set_intent(a[0] as *mut _, intent, dst) as i64)
+            }
+            "c2pa_builder_set_no_embed" => {
+                ffi::c2pa_builder_set_no_embed(a[0] as *mut _);
+                Ret::Void
+            }
+            "c2pa_builder_set_remote_url" => {
+                let u = self.carg("url", v[0]);
+                Ret::Int(ffi::c2pa_builder_set_remote_url(a[0] as *mut _, u.p()) as i64)
+            }
+            "c2pa_builder_set_base_path" => {
+                let p = self.carg("basepath", v[0]);
+                Ret::Int(ffi::c2pa_builder_set_base_path(a[0] as *mut _, p.p()) as i64)
+            }
+            "c2pa_builder_add_resource" => {
+                let u = self.carg("ingid", v[0]);
+                Ret::Int(ffi::c2pa_builder_add_resource(a[0] as *mut _, u.p(), a[1] as *mut _) as i64)
+            }
+            "c2pa_builder_add_ingredient_from_stream" => {
+                let j = self.carg("ingredient", v[0]);
+                let f = self.carg("fmt", v[1]);
+                Ret::Int(ffi::c2pa_builder_add_ingredient_from_stream(a[0] as *mut _, j.p(), f.p(), a[1] as *mut _) as i64)
+            }
+            "c2pa_builder_add_action" => {
+                let j = self.carg("action", v[0]);
+                Ret::Int(ffi::c2pa_builder_add_action(a[0] as *mut _, j.p()) as i64)
+            }
+            "c2pa_builder_to_archive" => Ret::Int(ffi::c2pa_builder_to_archive(a[0] as *mut _, a[1] as *mut _) as i64),
+            "c2pa_builder_add_ingredient_from_archive" => {
+                Ret::Int(ffi::c2pa_builder_add_ingredient_from_archive(a[0] as *mut _, a[1] as *mut _) as i64)
+            }
+            "c2pa_builder_write_ingredient_archive" => {
+                let id = self.carg("ingid", v[0]);
+                Ret::Int(ffi::c2pa_builder_write_ingredient_archive(a[0] as *mut _, id.p(), a[1] as *mut _) as i64)
+            }
+            "c2pa_builder_sign" => {
+                let f = self.carg("fmt", v[0]);
+                Ret::Int(ffi::c2pa_builder_sign(a[0] as *mut _, f.p(), a[1] as *mut _, a[2] as *mut _, a[3] as *mut _, &mut out))
+            }
+            "c2pa_builder_sign_context" => {
+                let f = self.carg("fmt", v[0]);
+                Ret::Int(ffi::c2pa_builder_sign_context(a[0] as *mut _, f.p(), a[1] as *mut _, a[2] as *mut _, &mut out))
+            }
+            "c2pa_manifest_bytes_free" => {
+                ffi::c2pa_manifest_bytes_free(a[0] as *const u8);
+                Ret::Void
+            }
+            "c2pa_builder_data_hashed_placeholder" => {
+                let f = self.carg("fmt", v[0]);
+                let reserve = [10_000usize, 0, 100][v[1] as usize % 3];
+                Ret::Int(ffi::c2pa_builder_data_hashed_placeholder(a[0] as *mut _, reserve, f.p(), &mut out))
+            }
+            "c2pa_builder_sign_data_hashed_embeddable" => {
+                let dh = self.carg("datahash", v[0]);
+                let f = self.carg("fmt", v[1]);
+                Ret::Int(ffi::c2pa_builder_sign_data_hashed_embeddable(a[0] as *mut _, a[1] as *mut _, dh.p(), f.p(), a[2] as *mut _, &mut out))
+            }
+            "c2pa_builder_needs_placeholder" => {
+                let f = self.carg("fmt", v[0]);
+                Ret::Int(ffi::c2pa_builder_needs_placeholder(a[0] as *mut _, f.p()) as i64)
+            }
+            "c2pa_builder_hash_type" => {
+                let f = self.carg("fmt", v[0]);
+                let mut ht = ffi::C2paHashType::DataHash;
+                Ret::Int(ffi::c2pa_builder_hash_type(a[0] as *mut _, f.p(), &mut ht) as i64)
+            }
+            "c2pa_builder_placeholder" => {
+                let f = self.carg("fmt", v[0]);
+                Ret::Int(ffi::c2pa_builder_placeholder(a[0] as *mut _, f.p(), &mut out))
+            }
+            "c2pa_builder_sign_embeddable" => {
+                let f = self.carg("fmt", v[0]);
+                Ret::Int(ffi::c2pa_builder_sign_embeddable(a[0] as *mut _, f.p(), &mut out))
+            }
+            "c2pa_builder_set_data_hash_exclusions" => {
+                let ex: [u64; 4] = [20, 100, 400, 16];
+                let (p, n) = match v[0] % 3 {
+                    0 => (ex.as_ptr(), 1usize),
+                    1 => (std::ptr::null(), 0),
+                    _ => (ex.as_ptr(), 2),
+                };
+                Ret::Int(ffi::c2pa_builder_set_data_hash_exclusions(a[0] as *mut _, p, n) as i64)
+            }
+            "c2pa_builder_set_fixed_size_merkle" => {
+                let kb = [1usize, 0, 1024][v[0] as usize % 3];
+                Ret::Int(ffi::c2pa_builder_set_fixed_size_merkle(a[0] as *mut _, kb) as i64)
+            }
+            "c2pa_builder_hash_mdat_bytes" => {
+                let (d, l) = self.data_arg(1 + v[1] % 3);
+                Ret::Int(ffi::c2pa_builder_hash_mdat_bytes(a[0] as *mut _, (v[0] % 2) as usize, d, l, v[2] & 1 == 1) as i64)
+            }
+            "c2pa_builder_update_hash_from_stream" => {
+                let f = self.carg("fmt", v[0]);
+                Ret::Int(ffi::c2pa_builder_update_hash_from_stream(a[0] as *mut _, f.p(), a[1] as *mut _) as i64)
+            }
+            "c2pa_format_embeddable" => {
+                let f = self.carg("fmt", v[0]);
+                let (d, l) = self.data_arg(v[1]);
+                Ret::Int(ffi::c2pa_format_embeddable(f.p(), d, l, &mut out))
+            }
+            "c2pa_signer_create" => {
+                let certs = self.carg("certs", v[0]);
+                let alg = if v[1] % 3 == 1 { ffi::C2paSigningAlg::Es256 } else { ffi::C2paSigningAlg::Ed25519 };
+                Ret::Ptr(ffi::c2pa_signer_create(self.pools.key_pem.as_ptr() as *const c_void, sign_cb, alg, certs.p(), null_s) as usize)
+            }
+            "c2pa_identity_signer_create" => {
+                let r0 = CString::new("c2pa.actions").unwrap();
+                let refs: [*const c_char; 2] = [r0.as_ptr(), std::ptr::null()];
+                let empty: [*const c_char; 1] = [std::ptr::null()];
+                let pick = |x: u8| -> *const *const c_char {
+                    match x % 3 {
+                        0 => std::ptr::null(),
+                        1 => refs.as_ptr(),
+                        _ => empty.as_ptr(),
+                    }
+                };
+                Ret::Ptr(ffi::c2pa_identity_signer_create(a[0] as *mut _, a[1] as *mut _, pick(v[0]), pick(v[1])) as usize)
+            }
+            "c2pa_signer_from_settings" => Ret::Ptr(ffi::c2pa_signer_from_settings() as usize),
+            "c2pa_signer_reserve_size" => Ret::Int(ffi::c2pa_signer_reserve_size(a[0] as *mut _)),
+            "c2pa_signer_free" => {
+                ffi::c2pa_signer_free(a[0] as *const _);
+                Ret::Void
+            }
+            "c2pa_ed25519_sign" => {
+                let key = self.carg("key", v[0]);
+                let (d, l) = self.data_arg(1 + v[1] % 3);
+                Ret::Ptr(ffi::c2pa_ed25519_sign(d, l, key.p()) as usize)
+            }
+            "c2pa_signature_free" => {
+                ffi::c2pa_signature_free(a[0] as *const u8);
+                Ret::Void
+            }
+            "c2pa_release_stream" => {
+                ffi::c2pa_release_stream(a[0] as *mut _);
+                Ret::Void
+            }
+            other => panic!("exec: no such function {other}"),
+        };
+        Out { ret, out: out as usize, count }
+    }
+}
+
+fn child_main() -> ! {
+    std::panic::set_hook(Box::new(|info| {
+        let loc = info.location().map(|l| format!("{}:{}", l.file(), l.line())).unwrap_or_default();
+        let msg = info
+            .payload()
+            .downcast_ref::<&str>()
+            .map(|s| s.to_string())
+            .or_else(|| info.payload().downcast_ref::<String>().cloned())
+            .unwrap_or_else(|| "panic".into());
+        emit(json!({"e": "panic", "in_call": IN_CALL.load(Ordering::SeqCst), "msg": format!("{loc}: {msg}")}));
+    }));
+    let mut txt = String::new();
+    std::io::stdin().read_to_string(&mut txt).expect("child: stdin");
+    let inp: ChildInput = serde_json::from_str(&txt).expect("child: input json");
+    let mut ch = Child::new(&inp);
+    for c in &inp.case.calls {
+        if ch.call(c).is_err() {
+            break;
+        }
+    }
+    if !ch.stopped {
+        let _ = ch.final_phase();
+    }
+    emit(json!({
+        "e": "done",
+        "counts": ch.counts,
+        "nontrivial": ch.nontrivial,
+        "excluded": ch.excluded,
+        "trouble": ch.trouble,
+    }));
+    unsafe { libc::_exit(0) }
+}
+
+// ------------------------------------------------------------------------------------------------
+// parent: run one sequence in a child and judge the trace
+// ------------------------------------------------------------------------------------------------
+
+struct Outcome {
+    fail: Option<Fail>,
+    inconclusive: Option<String>,
+    counts: BTreeMap<String, u64>,
+    nontrivial: bool,
+    excluded: u64,
+}
+
+fn run_child(case: &Case, skip: &[String], selftest: u8, timeout_s: u64) -> Outcome {
+    let mut o = Outcome { fail: None, inconclusive: None, counts: BTreeMap::new(), nontrivial: false, excluded: 0 };
+    let input = json!({"case": case, "skip": skip, "selftest": selftest}).to_string();
+    let mut cmd = Command::new("/proc/self/exe");
+    cmd.arg("--child")
+        .env("MALLOC_CHECK_", "3")
+        .env("MALLOC_PERTURB_", "165")
+        .env("LD_PRELOAD", "libc_malloc_debug.so.0")
+        .env("RUST_BACKTRACE", "0")
+        .stdin(Stdio::piped())
+        .stdout(Stdio::piped())
+        .stderr(Stdio::piped());
+    let mut child = match cmd.spawn() {
+        Ok(c) => c,
+        Err(e) => {
+            o.inconclusive = Some(format!("cannot spawn child: {e}"));
+            return o;
+        }
+    };
+    let mut stdin = child.stdin.take().unwrap();
+    let mut stdout = child.stdout.take().unwrap();
+    let mut stderr = child.stderr.take().unwrap();
+    let w = std::thread::spawn(move || {
+        let _ = stdin.write_all(input.as_bytes());
+    });
+    let t_out = std::thread::spawn(move || {
+        let mut s = String::new();
+        let _ = stdout.read_to_string(&mut s);
+        s
+    });
+    let t_err = std::thread::spawn(move || {
+        let mut s = Vec::new();
+        let _ = stderr.read_to_end(&mut s);
+        String::from_utf8_lossy(&s).into_owned()
+    });
+    // wall clock is used only to give up on a child (=> inconclusive), never in a verdict
+    let start = std::time::Instant::now();
+    let status = loop {
+        match child.try_wait() {
+            Ok(Some(st)) => break Some(st),
+            Ok(None) => {
+                if start.elapsed().as_secs() > timeout_s {
+                    let _ = child.kill();
+                    let _ = child.wait();
+                    break None;
+                }
+                std::thread::sleep(std::time::Duration::from_millis(3));
+            }
+            Err(_) => break None,
+        }
+    };
+    let _ = w.join();
+    let out = t_out.join().unwrap_or_default();
+    let err = t_err.join().unwrap_or_default();
+    let Some(status) = status else {
+        o.inconclusive = Some(format!("child exceeded {timeout_s}s"));
+        return o;
+    };
+
+    let mut last_pre: Option<Value> = None;
+    let mut last_was_post = false;
+    let mut done = false;
+    let mut harness_panic: Option<String> = None;
+    let mut trace: Vec<String> = vec![];
+    for line in out.lines() {
+        let Ok(v) = serde_json::from_str::<Value>(line) else { continue };
+        match v["e"].as_str().unwrap_or("") {
+            "pre" => {
+                trace.push(format!(
+                    "{}{}({})",
+                    if v["implicit"].as_bool().unwrap_or(false) { "~" } else { "" },
+                    v["f"].as_str().unwrap_or("?"),
+                    v["cls"].as_array().map(|a| a.iter().filter_map(|x| x.as_str()).collect::<Vec<_>>().join(",")).unwrap_or_default()
+                ));
+                last_pre = Some(v);
+                last_was_post = false;
+            }
+            "post" => {
+                if let Some(t) = trace.last_mut() {
+                    t.push_str(&format!("->{}", v["ret"].to_string().replace('"', "")));
+                }
+                last_was_post = true;
+            }
+            "viol" => {
+                let tail: Vec<String> = trace.iter().rev().take(10).rev().cloned().collect();
+                o.fail = Some(Fail::new(
+                    v["sig"].as_str().unwrap_or("C31:unknown").to_string(),
+                    format!("{} | calls: {}", v["what"].as_str().unwrap_or(""), tail.join(" ; ")),
+                ));
+            }
+            "panic" => {
+                if !v["in_call"].as_bool().unwrap_or(false) {
+                    harness_panic = Some(v["msg"].as_str().unwrap_or("").to_string());
+                }
+            }
+            "done" => {
+                done = true;
+                if let Some(c) = v["counts"].as_object() {
+                    for (k, n) in c {
+                        o.counts.insert(k.clone(), n.as_u64().unwrap_or(0));
+                    }
+                }
+                o.nontrivial = v["nontrivial"].as_bool().unwrap_or(false);
+                o.excluded = v["excluded"].as_u64().unwrap_or(0);
+                if let Some(t) = v["trouble"].as_str() {
+                    o.inconclusive = Some(format!("harness trouble in child: {t}"));
+                }
+            }
+            _ => {}
+        }
+    }
+    if o.fail.is_some() || done {
+        return o;
+    }
+    if let Some(p) = harness_panic {
+        o.inconclusive = Some(format!("harness panic in child: {p}"));
+        return o;
+    }
+    // the child died
+    use std::os::unix::process::ExitStatusExt;
+    let how = match (status.signal(), status.code()) {
+        (Some(s), _) => format!("killed by signal {s}"),
+        (None, Some(c)) => format!("exit code {c}"),
+        _ => "unknown status".to_string(),
+    };
+    let err_tail: String = err.lines().rev().take(3).collect::<Vec<_>>().into_iter().rev().collect::<Vec<_>>().join(" / ");
+    let tail: Vec<String> = trace.iter().rev().take(10).rev().cloned().collect();
+    match last_pre {
+        None => {
+            o.inconclusive = Some(format!("child died before the first call ({how}): {err_tail}"));
+        }
+        Some(p) => {
+            let f = p["f"].as_str().unwrap_or("?");
+            let phase = p["phase"].as_str().unwrap_or("seq");
+            let sig = if last_was_post {
+                format!("C31:crash-after:{f}")
+            } else if let Some(b) = p["bad"].as_str() {
+                format!("C31:crash:{b}")
+            } else if phase != "seq" {
+                format!("C31:crash:{phase}:{f}:valid")
+            } else {
+                format!("C31:crash:{f}:valid")
+            };
+            o.fail = Some(Fail::new(sig, format!("child {how} in {f} (stderr: {err_tail}) | calls: {}", tail.join(" ; "))));
+        }
+    }
+    o
+}
+
+// ------------------------------------------------------------------------------------------------
+// parent: campaign
+// ------------------------------------------------------------------------------------------------
+
+fn sel_strategy() -> impl Strategy<Value = Sel> {
+    let class = prop_oneof![26 => Just(0u8), 4 => Just(1u8), 4 => Just(2u8), 3 => Just(3u8), 3 => Just(4u8)];
+    (class, any::<u8>()).prop_map(|(c, i)| Sel { c, i })
+}
+
+fn call_strategy() -> impl Strategy<Value = Call> {
+    (
+        0..SPECS.len() as u8,
+        proptest::array::uniform4(sel_strategy()),
+        proptest::array::uniform3(prop_oneof![3 => Just(0u8), 2 => any::<u8>()]),
+    )
+        .prop_map(|(f, h, v)| Call { f, h, v })
+}
+
+fn main() {
+    if std::env::args().nth(1).as_deref() == Some("--child") {
+        child_main();
+    }
+    vh::quiet_panics();
+    let run = Run::from_args("C31", "exploration");
+    run.set_rule("cases = sequences of 1..40 calls over the 77 exported c2pa_* functions; every handle parameter gets a selector {live right type, live wrong type, freed, NULL, foreign pointer into a harness buffer} (at most one invalid handle per call so a failure names one parameter and class; missing handles are created on demand through canonical valid API calls); C strings are valid or NULL, buffers / out-pointers / callbacks are valid caller-owned values. Each sequence runs in its own child process (re-exec, MALLOC_CHECK_=3, MALLOC_PERTURB_=165, libc_malloc_debug preloaded) that keeps a model of the registry learned from return values. Non-trivial = the sequence performs at least one generated misuse call after at least one successful construction.");
+    run.assume("C strings passed are valid NUL-terminated or NULL; out-pointers, data buffers, callback contexts and enum values are valid caller-owned values (not handles)");
+    run.assume("NULL is a documented no-op for the free functions and for the `asset` stream of c2pa_builder_sign_data_hashed_embeddable (not judged as misuse)");
+    run.assume("the type-specific free functions are documented aliases of c2pa_free ('works for all pointer types'): any live registry handle is a valid argument for them");
+    run.assume("whether a handle passed to a consuming function (*_with_*, set_signer, set_http_resolver, identity_signer_create, context_builder_build) is still owned by the caller after that call FAILED is not documented: such handles are never reused and their final free may succeed or fail");
+    run.assume("c2pa_free_string_array (void, not registry-backed) cannot report anything: with an invalid pointer only a crash is judged, and the sequence ends there");
+    run.assume("glibc malloc debugging (abort on heap corruption) and a fatal signal are the crash observations; silent corruption that neither aborts nor breaks a later call is not seen");
+
+    let selftest: u8 = std::env::var("VERIF_SELFTEST").ok().and_then(|s| s.parse().ok()).unwrap_or(0);
+    if selftest != 0 {
+        run.note(format!("VERIF_SELFTEST={selftest}: deliberately wrong variant, failures expected"));
+    }
+
+    // known (function, parameter, class) triples: skipped inside the campaign, re-created by the probes
+    let mut skip: Vec<String> = vec![];
+    for s in SPECS {
+        for (_, pname, _) in s.hs {
+            for cl in [Cl::Wrong, Cl::Freed, Cl::Null, Cl::Foreign] {
+                let key = format!("{}:{}:{}", s.name, pname, cl.name());
+                let known = ["crash", "no-error-indicator", "no-error-message"].iter().any(|p| run.is_known(&format!("C31:{p}:{key}")));
+                if known {
+                    skip.push(key);
+                }
+            }
+        }
+    }
+    run.extra("known_triples_skipped_in_campaign", json!(skip));
+
+    let timeout_s = 180;
+    let judge = |case: &Case| -> CaseResult {
+        let o = run_child(case, &skip, selftest, timeout_s);
+        for (k, n) in &o.counts {
+            run.count_n(k, *n);
+        }
+        run.count_n("calls_skipped_known", o.excluded);
+        if o.excluded > 0 {
+            run.excluded_known(o.excluded);
+        }
+        if o.nontrivial {
+            run.nontrivial(case);
+        }
+        if let Some(w) = o.inconclusive {
+            run.inconclusive(w);
+            return Ok(());
+        }
+        match o.fail {
+            Some(f) => Err(f),
+            None => Ok(()),
+        }
+    };
+
+    // ---- probes: one minimal sequence per known triple (prints KNOWN-FINDING when it still reproduces) -----
+    let probes: Vec<Case> = skip
+        .iter()
+        .filter_map(|key| {
+            let mut it = key.split(':');
+            let (f, p, c) = (it.next()?, it.next()?, it.next()?);
+            let fi = SPECS.iter().position(|s| s.name == f)?;
+            let pi = SPECS[fi].hs.iter().position(|h| h.1 == p)?;
+            let cl = [Cl::Wrong, Cl::Freed, Cl::Null, Cl::Foreign].iter().position(|x| x.name() == c)? as u8 + 1;
+            let mut h = [Sel { c: 0, i: 0 }; 4];
+            h[pi] = Sel { c: cl, i: 0 };
+            Some(Case { calls: vec![Call { f: fi as u8, h, v: [0; 3] }], probe: true })
+        })
+        .collect();
+    run.drive_enum("probe", probes, |c| judge(c));
+
+    // ---- fixed scenarios: every function once with every class on every handle parameter -------------------
+    let mut sweep: Vec<Case> = vec![];
+    for (fi, s) in SPECS.iter().enumerate() {
+        for pi in 0..s.hs.len() {
+            for cl in 1..5u8 {
+                let mut h = [Sel { c: 0, i: 0 }; 4];
+                h[pi] = Sel { c: cl, i: 0 };
+                sweep.push(Case { calls: vec![Call { f: fi as u8, h, v: [0; 3] }], probe: false });
+            }
+        }
+    }
+    run.extra("sweep_cases", json!(sweep.len()));
+    run.drive_enum_par("sweep", sweep, 8, |c| judge(c));
+
+    // ---- random sequences ---------------------------------------------------------------------------------
+    let strat = proptest::collection::vec(call_strategy(), 1..=40).prop_map(|calls| Case { calls, probe: false });
+    let threads = run.scale(8, 12);
+    run.drive_par("sequences", run.scale(400, 30_000), threads, strat, |c| judge(c));
+    run.finish();
+}
